@@ -18,7 +18,7 @@ REPO = Path(os.environ.get("VERIF_REPO", "/repo"))
 LEAN_DIR = Path(os.environ.get("VERIF_LEAN_DIR", str(VERIF / "lean")))  # override only for development in a private copy
 DRIVER = LEAN_DIR / ".lake" / "build" / "bin" / "driver"
 EVIDENCE_DIR = VERIF / "evidence"
-REPLAY_DIR = VERIF / "replays"
+REPLAY_DIR = Path(os.environ.get("VERIF_REPLAY_DIR", str(VERIF / "replays")))
 PY = "/venv/bin/python"
 
 ALLOWED_AXIOMS = {"propext", "Classical.choice", "Quot.sound"}
@@ -351,7 +351,7 @@ def known_keys(prop: str) -> dict[str, dict[str, Any]]:
 
 
 def write_replay(prop: str, payload: dict[str, Any]) -> Path:
-    REPLAY_DIR.mkdir(exist_ok=True)
+    REPLAY_DIR.mkdir(exist_ok=True, parents=True)
     blob = json.dumps(payload, sort_keys=True, ensure_ascii=True, default=str)
     h = hashlib.sha256(blob.encode()).hexdigest()[:12]
     p = REPLAY_DIR / f"{prop}-{h}.json"
